@@ -396,11 +396,55 @@ def r_materialized(c):
             "materialized nodes are no longer kept in an ordered set")
 
 
+DEPS_EXEMPT = {
+    "NamedCallResult":
+        "a result of a function call is represented by the dependencies of the call "
+        "(map_named_call_result returns rec(expr._container), map_call the bindings' "
+        "dependencies): deliberate, function calls are opaque to the partitioner",
+}
+
+
+def r_deps_self(c):
+    """"the dependencies of a node include the node": for every array kind the
+    handler of DependencyMapper / SubsetDependencyMapper returns a set containing
+    the node itself (the partitioner places a sent array by looking it up in the
+    dependency set of the send's data)"""
+    m = c.model
+    n = 0
+    for M in ("pytato.transform.DependencyMapper", "pytato.transform.SubsetDependencyMapper"):
+        fl = Flow(m, M, 8)
+        for k in concrete_kinds(m, with_funcdef=False):
+            if m.ARRAY not in m.mro(k):
+                continue
+            h = handler_name(m, M, k)
+            ci = m.classes[k]
+            if not h:
+                c.violation("R20-DEPS", short(M), f"{short(k)}:handled",
+                            m.loc(ci.module, ci.node), f"{short(M)} has no handler for {short(k)}")
+                continue
+            s = fl.handler(h, k)
+            n += 1
+            inc = () in paths_of(s.ret, "expr")
+            where = "%s:%s" % (s.where[2].split(":")[0], s.where[2].split(":")[1])
+            if not inc and short(k) in DEPS_EXEMPT:
+                c.exempt("R20-DEPS", f"{short(M)}.{h}", f"{short(k)}:includes-the-node-itself",
+                         where, DEPS_EXEMPT[short(k)])
+                continue
+            c.check(inc, "R20-DEPS", f"{short(M)}.{h}", f"{short(k)}:includes-the-node-itself",
+                    where,
+                    f"the dependency set {short(M)} computes for a {short(k)} does not contain "
+                    f"the {short(k)} itself (every sibling handler adds frozenset([expr])): a "
+                    "stored/sent node of this kind is not found among the dependencies of "
+                    "what uses it, so the partitioner places it in the wrong part")
+    if n < 30:
+        raise AnalysisError(f"only {n} dependency handlers analysed (floor 30)")
+
+
 SPEC = Spec(
     prop="C20",
-    rules=[r_converse, r_topo, r_count, r_materialized],
+    rules=[r_converse, r_topo, r_count, r_materialized, r_deps_self],
     floors={"R20-CONVERSE": 90, "R20-TOPO": 40, "R20-COUNT": 14,
-            "R20-MATERIALIZED": 9},
+            "R20-MATERIALIZED": 9, "R20-DEPS": 30},
     explanation=(
         "R20-CONVERSE: for every concrete node kind the handlers of "
         "ListOfUsersCollector, UsersCollector and ListOfDirectPredecessorsGetter "
